@@ -1400,6 +1400,12 @@ def subjects_rule(P, E, H):
             if got != want:
                 r.violate((owner, meth, "records/broadcasts differently"),
                           "%s::%s does %s; its definition says %s" % (owner.split("::")[-1], meth, got, want), body=S.b)
+            if cells_want is not None:
+                written = [g for g, v in p_.cells.items() if (S.cellinfo.get(g) or ("?",))[0] in ("flag", "optcell") and not (isinstance(g, tuple) and len(g) == 2 and g[1] == "val")]
+                if len(written) != len(cells_want):
+                    r.violate((owner, meth, "records more than its own state"),
+                              "%s::%s writes %d recorded-state cells, its definition writes %d: it clobbers state another event recorded "
+                              "(a stored error erased by a later complete)" % (owner.split("::")[-1], meth, len(written), len(cells_want)), body=S.b)
             for (kind, val) in (cells_want or []):
                 ok = False
                 for g, v in p_.cells.items():
